@@ -83,8 +83,8 @@ func (m *Machine) invoke(th *Thread, fr *Frame, f FuncV, args []Value, dst ssa.V
 	if s, ok := m.stubFns[name]; ok && fr.fn != s {
 		f = FuncV{fn: s}
 		name = m.fnName(s)
-	} else if in, ok := m.intr[name]; ok {
-		res, st := in(m, th, fr, f, args)
+	} else if in, ok := m.intr[name]; ok && !m.declined(in, th, fr, f, args) {
+		res, st := m.lastIntrRes, m.lastIntrSt
 		switch st {
 		case invYield:
 			return invYield
@@ -659,4 +659,20 @@ func (m *Machine) execSelect(th *Thread, fr *Frame, x *ssa.Select) bool {
 func isDurationMethod(fn *ssa.Function) bool {
 	r := fn.Signature.Recv()
 	return r != nil && namedIs(r.Type(), "time", "Duration")
+}
+
+// declined runs the intrinsic; it reports true when the intrinsic declined (symbolic arguments for a native-concrete
+// function) so that the real body is executed instead.
+func (m *Machine) declined(in intrinsic, th *Thread, fr *Frame, f FuncV, args []Value) (decl bool) {
+	defer func() {
+		if r := recover(); r != nil {
+			if _, ok := r.(declineT); ok {
+				decl = true
+				return
+			}
+			panic(r)
+		}
+	}()
+	m.lastIntrRes, m.lastIntrSt = in(m, th, fr, f, args)
+	return false
 }
